@@ -26,6 +26,17 @@ CLAIMED = {
         "modelled; mixed integer/float comparison is covered by the exact-arithmetic oracle on the grid, not by a theorem.",
    technique="Coq proof (refutation + theorem outside syntactic known classes) over executable model + differential correspondence",
    design="7 (C19)"),
+ "C17": dict(
+   text="Theorem C17_holds (Props/C17.v): for every block size and every sequence of appends of any sizes, forces, reopens, "
+        "crashes, truncations and reads, a read that follows a force/reopen/crash returns exactly the forced prefix of the records "
+        "appended since the last truncation, in order, and nothing else (refinement of the block/queue/file mechanism to a list, by "
+        "an invariant over operation lists). Layout constants are regenerated from the compiled crate on every run; the model is "
+        "run against the real WriteAheadLog/WalReader on generated operation sequences with sizes aimed at block boundaries.",
+   note="Trusted: Coq kernel; record byte layout and payload integrity are checked by the harness, not the theorem; the reader's "
+        "read-ahead queue is modelled as a sequential read (runs use read-ahead 1,2,4,7); file-system semantics (whole-block "
+        "writes, set_len(0)); block size 40960 (fs block 4096).",
+   technique="Coq refinement proof (invariant by induction over operation lists) + regenerated layout constants + differential correspondence",
+   design="7 (C17)"),
 }
 NOT_YET = "not claimed yet: model and proofs under construction in this session (see DESIGN.md section 10, build order)"
 
